@@ -321,3 +321,10 @@ def run(ctx):
     if ctx.nshards == 1:
         for k in list(F.OPERATORS) + list(F.FUNCTIONS):
             ctx.require(f"element:{k}")
+
+
+def passive(ctx, fl, probe):
+    """attach this property's always-on monitor to a foreign workload (the repository's test-suite, see vf/pytest_plugin.py)"""
+    mon = FormulaMonitor(ctx, fl)
+    mon.install(probe)
+    return None
